@@ -200,6 +200,7 @@ Section Correct.
     | NAlt a b => supported a && supported b
     | NCaptureGroup _ c _ => supported c
     | NLookaround _ _ _ _ c => supported c
+    | NLoop body _ _ _ _ _ => supported body
     | _ => false
     end.
 
@@ -504,6 +505,210 @@ Section Correct.
           * constructor; [|constructor]. repeat split; auto.
           * apply (onto_look ix prog h fwd s (negb bw) (Some y) (PContinue (ps_set_pos (ps_set_ip y cont) (ps_pos s)))); auto. discriminate.
     Qed.
+    (* ---------------- loops ---------------- *)
+    Lemma at_end_same s s1 s2 e1 e2 lo hi : at_end s e1 lo hi s1 -> at_end s1 e2 lo hi s2 -> at_end s e2 lo hi s2.
+    Proof.
+      intros (A1 & A2 & A3 & A4) (B1 & B2 & B3 & B4). repeat split; auto; try congruence.
+      intros i Hi. rewrite B4 by exact Hi. apply A4. exact Hi.
+    Qed.
+
+    (* the ResetCG prefix of a loop body *)
+    Lemma resets_onto fwd : forall n lo gs g1 st,
+      reset_groups gs lo n = Some g1 -> code_at (ps_ip st) (map ResetCG (seq lo n)) -> ps_groups st = gs ->
+      onto fwd [st] [ps_set_ip (ps_set_groups st g1) (ps_ip st + n)].
+    Proof.
+      induction n as [|n IH]; intros lo gs g1 st Hr Hc Hg.
+      - simpl in Hr. inversion Hr; subst g1. rewrite Nat.add_0_r. rewrite <- Hg.
+        replace (ps_set_ip (ps_set_groups st (ps_groups st)) (ps_ip st)) with st by (destruct st; reflexivity).
+        apply onto_refl.
+      - cbn [reset_groups] in Hr. destruct (upd_group lo (fun _ => gd_empty) gs) as [gs'|] eqn:Eu; [|discriminate].
+        simpl in Hc. apply code_at_cons in Hc as [Hi Hc].
+        set (st1 := ps_set_ip (ps_set_groups st gs') (S (ps_ip st))).
+        eapply onto_trans.
+        + apply (onto_plain fwd st (ResetCG lo) (PContinue st1)); auto.
+          * unfold pk_step. rewrite Hi. unfold set_group. rewrite Hg. unfold upd_group in Eu.
+            destruct (nth_error gs lo) as [gd|]; [|discriminate]. inversion Eu; subst gs'. reflexivity.
+          * discriminate.
+        + simpl push. specialize (IH (S lo) gs' g1 st1 Hr Hc eq_refl).
+          replace (ps_set_ip (ps_set_groups st g1) (ps_ip st + S n)) with (ps_set_ip (ps_set_groups st1 g1) (ps_ip st1 + n)).
+          * exact IH.
+          * unfold st1. simpl. unfold ps_set_ip, ps_set_groups. simpl. f_equal. lia.
+    Qed.
+
+    Section Loop.
+      Variables (fwd : bool) (body : node) (mn : N) (mx : option N) (gr : bool) (egs ege : nat).
+      Variables (off lid exit again : nat) (es1 eb : estate) (cb : list insn).
+      Let MX := max_val mx.
+      Let resets := map ResetCG (seq egs (ege - egs)).
+      Hypothesis Hsb : supported body = true.
+      Hypothesis Hi_enter : nth_error (p_insns prog) off = Some (EnterLoop lid mn MX gr exit).
+      Hypothesis Hc_resets : code_at (S off) resets.
+      Hypothesis Hc_body : code_at (off + 1 + length resets) cb.
+      Hypothesis Hagain : again = (off + 1 + length resets + length cb)%nat.
+      Hypothesis Hi_again : nth_error (p_insns prog) again = Some (LoopAgain off).
+      Hypothesis Eb : emit_node utf16 (p_unicode prog) body (off + 1 + length resets) (negb fwd) es1 = Ok (cb, eb).
+      Hypothesis Hbr : brackets_ok eb.
+      Hypothesis Hlid : es_next_loop es1 = S lid.
+
+      Definition loop_pt (t : pstate) (k : N) (entry : nat) : Prop :=
+        (k = 0 /\ ps_ip t = off) \/
+        (exists k', k = k' + 1 /\ ps_ip t = again /\ nth_error (ps_loops t) lid = Some (mkLD k' entry)).
+
+      Definition loop_decision (k : N) (entry : nat) (t : pstate) : smatch :=
+        if (0 <? k) && (mn <? k) && (entry =? ps_pos t)%nat then PFail
+        else
+          let s1 := ps_set_ip (ps_set_loops t (set_nth lid (mkLD k (ps_pos t)) (ps_loops t))) (S off) in
+          if negb (k <? MX) && negb (mn <=? k) then PFail
+          else if negb (k <? MX) then PContinue (ps_set_ip s1 exit)
+          else if negb (mn <=? k) then PContinue s1
+          else if gr then PSplit (ps_set_ip s1 exit) s1 else PSplit s1 (ps_set_ip s1 exit).
+
+      Lemma loop_step nested t k entry : loop_pt t k entry -> (lid < length (ps_loops t))%nat ->
+        pk_step ix prog h nested fwd t = inr (loop_decision k entry t).
+      Proof.
+        intros [[-> Hip]|(k' & -> & Hip & Hld)] Hlen.
+        - unfold pk_step. rewrite Hip, Hi_enter. unfold pk_run_loop.
+          destruct (nth_error (ps_loops t) lid) as [ld|] eqn:El; [|apply nth_error_None in El; lia].
+          unfold loop_decision. rewrite Hip.
+          replace (0 <? 0) with false by reflexivity. cbn [andb negb].
+          replace (mn =? 0) with (mn <=? 0) by (destruct (N.eqb_spec mn 0), (N.leb_spec mn 0); try reflexivity; lia).
+          destruct (0 <? MX), (mn <=? 0), gr; reflexivity.
+        - unfold pk_step. rewrite Hip, Hi_again, Hi_enter. unfold pk_run_loop. cbn [ps_loops ps_set_ip].
+          rewrite Hld. cbn [negb ld_iters ld_entry ps_pos ps_set_ip andb].
+          unfold loop_decision.
+          replace (0 <? k' + 1) with true by (symmetry; apply N.ltb_lt; lia). cbn [andb].
+          destruct ((mn <? k' + 1) && (entry =? ps_pos t)%nat); [reflexivity|].
+          destruct (k' + 1 <? MX), (mn <=? k' + 1), gr; reflexivity.
+      Qed.
+
+      Lemma loop_dec : forall lf k entry y l t,
+        loop_results (ir_results ix (p_unicode prog) utf16 h f body fwd) mn mx gr egs ege lf k entry y = Some l ->
+        obs t = y -> ps_l1 t = 0 -> (es_next_loop eb <= length (ps_loops t))%nat -> loop_pt t k entry ->
+        exists ss, map obs ss = l /\ Forall (at_end t exit lid (es_next_loop eb)) ss /\ onto fwd [t] ss.
+      Proof.
+        pose proof (emit_extends _ _ _ _ _ _ _ _ Eb) as (Lx & _ & _). rewrite Hlid in Lx.
+        induction lf as [|lf IH]; intros k entry y l t Hr Hobs Hl1 Hlen Hpt; [discriminate|].
+        assert (Hll : (lid < length (ps_loops t))%nat) by lia.
+        pose proof (loop_step (fun _ _ => PNoMatch) t k entry Hpt Hll) as Hstep.
+        assert (Hnl : exists i, nth_error (p_insns prog) (ps_ip t) = Some i /\ not_look i = true).
+        { destruct Hpt as [[_ Hip]|(k' & _ & Hip & _)]; rewrite Hip; eauto. }
+        destruct Hnl as (i0 & Hi0 & Hn0).
+        assert (Hpos : fst y = ps_pos t) by (rewrite <- Hobs; reflexivity).
+        assert (Hgrp : snd y = ps_groups t) by (rewrite <- Hobs; reflexivity).
+        cbn [loop_results] in Hr. unfold loop_decision in Hstep. rewrite Hpos in Hr.
+        destruct ((0 <? k) && (mn <? k) && (entry =? ps_pos t)%nat).
+        { inversion Hr; subst l. exists []. repeat split; [constructor|].
+          apply (onto_plain fwd t i0 PFail); auto. discriminate. }
+        fold MX in Hr.
+        set (s1 := ps_set_ip (ps_set_loops t (set_nth lid (mkLD k (ps_pos t)) (ps_loops t))) (S off)) in *.
+        (* the exit continuation *)
+        assert (Hexit : obs (ps_set_ip s1 exit) = y /\ at_end t exit lid (es_next_loop eb) (ps_set_ip s1 exit)).
+        { split; [rewrite <- Hobs; reflexivity|]. unfold s1. repeat split; simpl; auto.
+          - apply set_nth_length.
+          - intros i Hi. apply nth_error_set_nth_neq. lia. }
+        destruct Hexit as [Hex1 Hex2].
+        (* the iterate continuation, when taken *)
+        assert (Hiter : forall it,
+                  match reset_groups (snd y) egs (ege - egs) with
+                  | None => None
+                  | Some g1 => match ir_results ix (p_unicode prog) utf16 h f body fwd (ps_pos t, g1) with
+                               | None => None
+                               | Some zs => obindm (loop_results (ir_results ix (p_unicode prog) utf16 h f body fwd) mn mx gr egs ege lf (k + 1) (ps_pos t)) zs
+                               end
+                  end = Some it ->
+                  exists ss, map obs ss = it /\ Forall (at_end t exit lid (es_next_loop eb)) ss /\ onto fwd [s1] ss).
+        { intros it Hit.
+          destruct (reset_groups (snd y) egs (ege - egs)) as [g1|] eqn:Erg; [|discriminate].
+          destruct (ir_results ix (p_unicode prog) utf16 h f body fwd (ps_pos t, g1)) as [zs|] eqn:Ez; [|discriminate].
+          set (s2 := ps_set_ip (ps_set_groups s1 g1) (ps_ip s1 + (ege - egs))).
+          assert (Hs2 : onto fwd [s1] [s2]).
+          { apply (resets_onto fwd (ege - egs) egs (snd y) g1 s1 Erg); [exact Hc_resets | rewrite Hgrp; reflexivity]. }
+          assert (Hip2 : ps_ip s2 = (off + 1 + length resets)%nat).
+          { unfold s2, s1, resets. simpl. rewrite map_length, seq_length. lia. }
+          assert (Hat2 : at_end t (ps_ip s2) lid (es_next_loop eb) s2).
+          { unfold s2, s1. repeat split; simpl; auto.
+            - apply set_nth_length.
+            - intros i Hi. apply nth_error_set_nth_neq. lia. }
+          destruct (IHf body fwd (off + 1 + length resets)%nat es1 cb eb (ps_pos t, g1) zs Hsb Ez Eb Hc_body Hbr s2) as (ssb & B1 & B2 & B3);
+            try (unfold s2, s1, obs; simpl; first [reflexivity | congruence | lia | assumption | (rewrite set_nth_length; lia)]).
+          rewrite <- B1 in Hit.
+          destruct (bind_states fwd (fun u v => at_end u exit lid (es_next_loop eb) v) _ ssb it Hit) as (tts & T1 & T2).
+          { intros u l0 Hin Hu. rewrite Forall_forall in B2. destruct (B2 u Hin) as (Q1 & Q2 & Q3 & Q4).
+            apply (IH (k + 1) (ps_pos t) (obs u) l0 u Hu eq_refl Q2).
+            - rewrite Q3. unfold s2, s1. simpl. rewrite set_nth_length. exact Hlen.
+            - right. exists k. repeat split.
+              + rewrite Q1, Hagain. reflexivity.
+              + rewrite Q4 by (rewrite Hlid; lia). unfold s2, s1. simpl. apply nth_error_set_nth_eq. exact Hll. }
+          exists (concat tts). repeat split; auto.
+          - apply (forall2_at_end (fun u => at_end s2 again (S lid) (es_next_loop eb) u)
+                     (fun u v => at_end u exit lid (es_next_loop eb) v) _ ssb tts fwd).
+            + rewrite Hagain. rewrite <- Hlid. exact B2.
+            + intros u v Hu Hv. eapply at_end_same; [|exact Hv].
+              eapply at_end_same; [exact Hat2|]. eapply at_end_widen; [| |exact Hu]; lia.
+            + exact T2.
+          - eapply onto_trans; [exact Hs2|]. eapply onto_trans; [exact B3|]. eapply onto_of_forall2. exact T2. }
+        destruct (k <? MX) eqn:Een, (mn <=? k) eqn:Esk; cbn [negb andb] in Hr, Hstep.
+        - (* both possible *)
+          match type of Hr with match ?itx with _ => _ end = _ => destruct itx as [it|] eqn:Eit; [|discriminate] end.
+          destruct (Hiter it eq_refl) as (ssi & I1 & I2 & I3).
+          inversion Hr; subst l. clear Hr.
+          destruct gr.
+          + exists (ssi ++ [ps_set_ip s1 exit]). repeat split.
+            * rewrite map_app, I1. simpl. rewrite Hex1. reflexivity.
+            * apply Forall_app. split; [exact I2|]. constructor; [exact Hex2|constructor].
+            * eapply onto_trans.
+              -- apply (onto_plain fwd t i0 (PSplit (ps_set_ip s1 exit) s1)); auto. discriminate.
+              -- simpl push. change [s1; ps_set_ip s1 exit] with ([s1] ++ [ps_set_ip s1 exit]).
+                 apply onto_app; [exact I3|apply onto_refl].
+          + exists (ps_set_ip s1 exit :: ssi). repeat split.
+            * simpl. rewrite Hex1, I1. reflexivity.
+            * constructor; [exact Hex2|exact I2].
+            * eapply onto_trans.
+              -- apply (onto_plain fwd t i0 (PSplit s1 (ps_set_ip s1 exit))); auto. discriminate.
+              -- simpl push. change (ps_set_ip s1 exit :: ssi) with ([ps_set_ip s1 exit] ++ ssi).
+                 change [ps_set_ip s1 exit; s1] with ([ps_set_ip s1 exit] ++ [s1]).
+                 apply onto_app; [apply onto_refl|exact I3].
+        - (* must iterate *)
+          destruct (Hiter l Hr) as (ssi & I1 & I2 & I3).
+          exists ssi. repeat split; auto.
+          eapply onto_trans; [|exact I3].
+          apply (onto_plain fwd t i0 (PContinue s1)); auto. discriminate.
+        - (* must leave *)
+          inversion Hr; subst l. exists [ps_set_ip s1 exit]. repeat split.
+          + simpl. rewrite Hex1. reflexivity.
+          + constructor; [exact Hex2|constructor].
+          + apply (onto_plain fwd t i0 (PContinue (ps_set_ip s1 exit))); auto. discriminate.
+        - inversion Hr; subst l. exists []. repeat split; [constructor|].
+          apply (onto_plain fwd t i0 PFail); auto. discriminate.
+      Qed.
+    End Loop.
+
+    Lemma loop_ok fwd body mn mx gr egs ege off es code es' x l : supported body = true ->
+      ir_results ix (p_unicode prog) utf16 h (S f) (NLoop body mn mx gr egs ege) fwd x = Some l ->
+      emit_node utf16 (p_unicode prog) (NLoop body mn mx gr egs ege) off (negb fwd) es = Ok (code, es') ->
+      code_at off code -> brackets_ok es' ->
+      forall s, ps_ip s = off -> obs s = x -> ps_l1 s = 0 -> (es_next_loop es' <= length (ps_loops s))%nat ->
+      exists ss, map obs ss = l /\ Forall (at_end s (off + length code) (es_next_loop es) (es_next_loop es')) ss /\ onto fwd [s] ss.
+    Proof.
+      intros Hsb Hr He Hc Hbr s Hip Hobs Hl1 Hlen.
+      destruct x as [p gs]. cbn [ir_results] in Hr.
+      simpl in He.
+      match type of He with (do rb <- emit_node _ _ _ ?o _ ?e1; _) = _ => set (es1 := e1) in *; set (boff := o) in * end.
+      destruct (emit_node utf16 (p_unicode prog) body boff (negb fwd) es1) as [e|[cb eb]] eqn:Eb; simpl in He; [discriminate|].
+      inversion He; subst code es'. clear He.
+      apply code_at_cons in Hc as [Hi0 Hc]. apply code_at_app in Hc as [Hcr Hc]. apply code_at_app in Hc as [Hcb Hca].
+      apply code_at_cons in Hca as [Hia _].
+      set (resets := map ResetCG (seq egs (ege - egs))) in *.
+      assert (Hboff : boff = (off + 1 + length resets)%nat) by reflexivity.
+      set (exit := (off + 1 + length resets + length cb + 1)%nat) in *.
+      match goal with |- context [at_end s ?e _ _] =>
+        replace e with exit by (unfold exit, boff; simpl; rewrite !app_length; simpl; lia) end.
+      apply (loop_dec fwd body mn mx gr egs ege off (es_next_loop es) exit (off + 1 + length resets + length cb)%nat es1 eb cb)
+        with (lf := f) (k := 0) (entry := p) (y := (p, gs)); auto.
+      - replace (S off + length resets)%nat with (off + 1 + length resets)%nat in Hcb by lia. exact Hcb.
+      - replace (S off + length resets + length cb)%nat with (off + 1 + length resets + length cb)%nat in Hia by lia. exact Hia.
+      - left. split; auto.
+    Qed.
   End Cases.
 
   (* leaves through their emitted code *)
@@ -681,7 +886,7 @@ Section Correct.
         * destruct x as [p gs]. cbn [ir_results] in Hr. rewrite Eb in Hr. eapply bracket_ok; eauto.
       + discriminate Hsup.
       + (* Lookaround *) eapply (look_ok f IHf fwd ng bw sg eg c); eauto.
-      + discriminate Hsup.
+      + (* Loop *) eapply (loop_ok f IHf fwd body mn mx gr egs ege); eauto.
       + discriminate Hsup.
   Qed.
 
